@@ -438,6 +438,10 @@ theorem source_has_fixes :
     chainFixOfSource = true ∧ metaFixOfSource = true ∧ secondPassShape = true ∧
     skippedDirShape = true := by decide
 
+/-- Closed world: every transcribed function makes exactly the transcribed operative calls; in
+    particular metadata is applied through the guarded `restoreNodeMetadataTo` only. -/
+theorem call_graph_closed : callGraphClosed = true := by decide
+
 end Restic.Props.C18
 
 namespace Restic.Props.C18
